@@ -234,6 +234,20 @@ pub trait Check: Sync {
     fn expected_probes(&self) -> Vec<&'static str> {
         vec![]
     }
+    /// number of leading run indices executed one after the other before the workers start (for
+    /// engines in which a defect can poison process-global state)
+    fn serial_prefix(&self) -> u64 {
+        0
+    }
+    /// the scenario may kill the process (e.g. by an allocation failure, which aborts): it is
+    /// written to an in-flight file first so that the wrapper can report it
+    fn risky(&self, _scn: &Value) -> bool {
+        false
+    }
+}
+
+pub fn inflight_path(verif_dir: &str, worker: usize) -> String {
+    format!("{}/replays/.inflight-{}-{}.json", verif_dir, std::process::id(), worker)
 }
 
 // ---------------------------------------------------------------------------
@@ -408,8 +422,41 @@ struct Found {
 
 const BLOCK: u64 = 64;
 
+static GLOBAL_OPTS: std::sync::OnceLock<Opts> = std::sync::OnceLock::new();
+
+/// A run has left the process in a state in which no further scenario can be executed safely
+/// (e.g. threads of the system under test that outlive their execution). The scenario is written
+/// out unminimised, confirmed in a fresh process and reported; the process exits.
+pub fn report_fatal(check: &dyn Check, scn: &Value, v: &Violation) -> ! {
+    let opts = GLOBAL_OPTS.get().cloned().unwrap_or(Opts { tier: Tier::Quick, seed: 1, workers: 1, replay: None, digest: false, runs: None, verif_dir: "/verif".into(), dry: true });
+    if opts.replay.is_some() {
+        // already replaying: the caller reports normally
+        println!("VIOLATION property={} replay={}", check.id(), opts.replay.clone().unwrap());
+        println!("  rule={} detail={}", v.rule, v.detail);
+        std::process::exit(1);
+    }
+    if opts.dry {
+        println!("VIOLATION property={} replay=<dry> rule={} detail={}", check.id(), v.rule, truncate(&v.detail, 300));
+        println!("  (fatal for the process: not minimised) scenario: {}", truncate(&scn.to_string(), 1200));
+        std::process::exit(1);
+    }
+    let path = write_replay(check, &opts, scn, v, 0, false, 0);
+    match confirm_in_fresh_process(&path) {
+        Ok(true) => {
+            println!("VIOLATION property={} replay={}", check.id(), path);
+            println!("  rule={} detail={}", v.rule, truncate(&v.detail, 400));
+            std::process::exit(1);
+        }
+        _ => {
+            eprintln!("HARNESS-ERROR: fatal violation {} did not reproduce in a fresh process ({})", v.rule, path);
+            std::process::exit(2);
+        }
+    }
+}
+
 pub fn main_for(check: &dyn Check, opts: &Opts) -> i32 {
     install_panic_hook();
+    let _ = GLOBAL_OPTS.set(opts.clone());
     if let Some(path) = &opts.replay {
         return replay_file(check, path);
     }
@@ -427,6 +474,32 @@ pub fn main_for(check: &dyn Check, opts: &Opts) -> i32 {
         (0..opts.workers).map(|_| Mutex::new(None)).collect();
     let finished_workers = AtomicUsize::new(0);
     let hang: Mutex<Option<(String, u64)>> = Mutex::new(None);
+
+    // serial prefix (see Check::serial_prefix)
+    let prefix = check.serial_prefix().min(total);
+    {
+        let mut st = Stats::new();
+        for idx in 0..prefix {
+            let rng = Rng::new(run_seed(opts.seed, check.id(), idx));
+            let scn = check.generate(&rng, opts.tier, idx);
+            let r = check.run(&scn, &mut st);
+            done_runs.fetch_add(1, Ordering::Relaxed);
+            if opts.digest {
+                digests.lock().unwrap().push((idx, r.log_hash));
+            }
+            if idx < 4 {
+                samples.lock().unwrap().push((idx, check.sample(&scn)));
+            }
+            if !r.violations.is_empty() {
+                found.lock().unwrap().push(Found { idx, scn, violations: r.violations });
+                stop.store(true, Ordering::SeqCst);
+                break;
+            }
+        }
+        merged.lock().unwrap().merge(st);
+    }
+    next.store(prefix, Ordering::SeqCst);
+    let _ = std::fs::create_dir_all(format!("{}/replays", opts.verif_dir));
 
     std::thread::scope(|s| {
         for w in 0..opts.workers {
@@ -456,7 +529,15 @@ pub fn main_for(check: &dyn Check, opts: &Opts) -> i32 {
                         let scn = check.generate(&rng, opts.tier, idx);
                         *slots[w].lock().unwrap() =
                             Some((serde_json::to_string(&scn).unwrap_or_default(), Instant::now(), idx));
+                        let risky = check.risky(&scn);
+                        if risky {
+                            let body = json!({"property": check.id(), "engine": check.engine(), "rule": format!("{}.process_killed", check.id()), "detail": "the process died while executing this scenario (abort, e.g. allocation failure)", "minimised": false, "run_index": idx, "scenario": scn});
+                            let _ = std::fs::write(inflight_path(&opts.verif_dir, w), body.to_string());
+                        }
                         let r = check.run(&scn, &mut st);
+                        if risky {
+                            let _ = std::fs::remove_file(inflight_path(&opts.verif_dir, w));
+                        }
                         *slots[w].lock().unwrap() = None;
                         done_runs.fetch_add(1, Ordering::Relaxed);
                         if opts.digest {
